@@ -189,3 +189,28 @@ def WTs (e : Ty) : Vals → Bool
 end
 
 end Goat.Print
+
+/-! ### containers that contain themselves (only constructible through the host API: `Set` and
+`Append` do not check element types). `SafeStr` carries the containers on its path
+(`safeStrP`) and cuts one met again. Containers live in their own heap so that cycles are
+representable; `fuel` only makes the definition structural — `Props/C14.cyc_total` shows that
+`heap size + 1` is always enough, whatever the heap looks like. -/
+namespace Goat.Print
+
+inductive CVal
+  | int (n : Int)
+  | cref (a : Nat)          -- a slice object (address in the container heap)
+  deriving DecidableEq, Repr
+
+abbrev CHeap := List (List CVal)
+
+def renderC (h : CHeap) : Nat → List Nat → CVal → Option String
+  | _, _, .int n => some (toString n)
+  | 0, _, .cref _ => none
+  | fuel + 1, path, .cref a =>
+    if a ∈ path then some "[...]"
+    else match h[a]? with
+      | none => some "[]"
+      | some elems => (elems.mapM (renderC h fuel (a :: path))).map fun parts => "[" ++ join parts ++ "]"
+
+end Goat.Print
